@@ -32,6 +32,12 @@ Step ==
               Chk(e.st = "ok" /\ (e.ref \in {x1.v, x2.v} \/ (HasNegZeroIntLit(e.d) /\ NormZ(e.ref) \in {NormZ(x1.v), NormZ(x2.v)})), R(e, "Denotes", "ok", IF e.st = "ok" THEN "wrong-message" ELSE e.st))
            ELSE IF x1.st = "err" THEN
               Chk(e.st = "err", R(e, x1.lbl, "err", IF e.st = "ok" THEN "silently-accepted" ELSE e.st))
+           \* a null map value: C09 does not say whether that is an error or "no entry", but nothing else may happen to the message
+           ELSE IF x1.lbl = "NullElement" /\ J2PDoc(DropNull(e.d), schema.root, schema.msgs, o, FALSE).st = "ok" THEN
+              LET y1 == J2PDoc(DropNull(e.d), schema.root, schema.msgs, o, FALSE)
+                  y2 == J2PDoc(DropNull(e.d), schema.root, schema.msgs, o, TRUE) IN
+              Chk(~e.panicked /\ (e.st = "err" \/ (e.st = "ok" /\ (e.ref \in {y1.v, y2.v} \/ (HasNegZeroIntLit(e.d) /\ NormZ(e.ref) \in {NormZ(y1.v), NormZ(y2.v)})))),
+                  R(e, "NullMapValue", "err-or-entry-dropped", IF e.panicked THEN "panic" ELSE IF e.st = "ok" THEN "wrong-message" ELSE e.st))
            \* outcome not fixed by C09; a crash of the converter is still reported
            ELSE Chk(~e.panicked, R(e, "NoPanic", "", "panic"))
         /\ UNCHANGED schema
